@@ -79,6 +79,35 @@ func (e *Exec) builtin(b *ssa.Builtin, cc *ssa.CallCommon, args []value) value {
 			}
 			return mkI64(int64(x.cap))
 		}
+	case "SliceData":
+		// unsafe.SliceData: the address of the first element; the slice is
+		// remembered so that unsafe.String can find the following cells
+		sl, _ := args[0].([]value)
+		if cap(sl) == 0 {
+			return (*value)(nil)
+		}
+		full := sl[:cap(sl)]
+		if e.sliceData == nil {
+			e.sliceData = map[*value][]value{}
+		}
+		e.sliceData[&full[0]] = full
+		return &full[0]
+	case "String":
+		// unsafe.String(ptr, n): a string that shares the memory at ptr
+		p, _ := args[0].(*value)
+		n := e.concretize(args[1].(Int)).signed()
+		if n == 0 {
+			return ""
+		}
+		cells, ok := e.sliceData[p]
+		if !ok || int(n) > len(cells) {
+			panic(inconclusive{"unsafe.String over memory that did not come from unsafe.SliceData"})
+		}
+		b := make([]Int, n)
+		for i := range b {
+			b[i] = Int{W: 8, Ref: &cells[i]}
+		}
+		return SStr{B: b}
 	case "append":
 		dst, _ := args[0].([]value)
 		switch src := args[1].(type) {
